@@ -112,7 +112,7 @@ def apply_variant(ep, s, o, variant, rng):
     s2, o2 = dict(s), dict(o)
     names = [n for n in ep.arrays if s.get(n) is not None]
     if variant in LAYOUT:
-        for n in names + ['mask', 'segm']:
+        for n in names + [m for m in ('mask', 'segm', 'pmask') if m in s]:
             if variant == 'bigendian' and s[n].dtype.kind == 'b':
                 continue
             s2[n] = gen.represent(s[n], variant)
@@ -308,7 +308,6 @@ def compare_repr(case, ep, variant, tag, res1, res2, o, amp, precision, gap_ok, 
     ncmp = 0
     rtol = PC_RTOL if precision else VP_RTOL
     atol = (2e-4 if precision else 1e-10) * max(1.0, amp)
-    int_bkg = precision and ep.name == 'Background2D' and variant != 'float32'
     for name in sorted(out1):
         k = ep.spec[name]
         if k.kind == 'skip':
@@ -365,6 +364,7 @@ def compare_repr(case, ep, variant, tag, res1, res2, o, amp, precision, gap_ok, 
             rt, at = rtol, atol
         if kind in epm.POS_KINDS and not precision and k.atol is None:
             at = 1e-9
+        int_bkg = precision and variant != 'float32' and (ep.name == 'Background2D' or name.startswith('b2d_'))
         if int_bkg:
             at = max(at, 3.0)           # documented rounding: meshes AND maps are cast to the integer input dtype
             #                             (<= 1 unit each, the first amplified by the order-3 spline zoom); measured max 2.05
@@ -387,9 +387,17 @@ def run_case(case):
     rng = case.rng
     variant = case.cls
     precision = variant in PRECISION
-    flav = 'stars' if rng.random() < 0.3 else 'general'
-    scene = gen.make_scene(rng, flavour=flav, margin=8, integer=precision, nonneg=(variant == 'uint16'))
+    r = rng.random()
+    flav = 'stars' if r < 0.25 else ('pedestal' if r < 0.45 and variant not in ('nddata', 'mixed_units') else 'general')
+    scene = gen.make_scene(rng, flavour='general' if flav == 'pedestal' else flav, margin=8, integer=precision,
+                           nonneg=(variant == 'uint16'))
     amp = scene['amp']
+    if flav == 'pedestal':
+        # statistics layer: large pedestal / small scatter / many pixels, integer-valued for every variant
+        img, pm, ped, sig = gen.make_pedestal_image(rng)
+        scene['pdata'], scene['pmask'] = gen.Frame(img), gen.Frame(pm, False)
+        scene['ped'], scene['psig'] = ped, sig
+        amp = 1.0
     if variant == 'mixed_units':
         elig = [e for e in EPS if e.name in MIX and e.quantity]
     elif variant == 'nddata':
@@ -412,7 +420,7 @@ def run_case(case):
         o1 = s1['opts'][ep.name]
         if precision:
             # a clip decision may flip on a last-ulp difference: precision-changing variants run unclipped
-            if 'clip' in o1:
+            if 'clip' in o1 and ep.name != 'statistics':
                 o1['clip'] = None if ep.name == 'ApertureStats' else False
             if ep.name == 'Background2D':
                 o1['estimator'] = o1['estimator'] if o1['estimator'] != 'mmm' else 'median'
@@ -422,6 +430,17 @@ def run_case(case):
                 o1['npeaks'] = None
             if 'brightest' in o1:
                 o1['brightest'] = None
+            if ep.name == 'statistics' and o1['clip'] is not None:
+                # clipped statistics under a precision change: only when no clipping bound of any iteration comes
+                # within 0.05 of a data value (a-posteriori gap check with astropy's SigmaClip on the float64 data)
+                sraw = gen.unwrap(scene)
+                ok = o1['axis'] is None and epm.clip_gap_ok(sraw['pdata'], sraw['pmask'] if o1['use_mask'] else None,
+                                                            o1['clip'], o1['maxiters'], 0.05)
+                case.note(f"clip_gap:statistics:{'ok' if ok else 'no_gap->unclipped'}")
+                if not ok:
+                    o1['clip'] = None
+        if ep.name == 'statistics':
+            o1['est_mask'] = variant in LAYOUT + ['maskedarray', 'float32']
         if variant == 'mixed_units':
             o1 = force_options(ep, o1, rng, scene['mask'].v.shape)
             mech = {'entry': ep.name, 'relation': 'repr:mixed_units'}
